@@ -433,6 +433,14 @@ def _session(prop, rng, n_req):
         r = rng.random()
         if prop == "C06":
             nt = _clock_instant(rng, f["p"][0], f["p"][1], lo, hi)
+            if f["t"] in ("clock:{hh}{mm} uhr", "clock:{hh}{mm}h") and f["p"][0] == 20 \
+                    and rng.random() < 0.6:
+                # the reference year (or the year three months ahead) spells the same digits
+                yr = 2000 + f["p"][1]
+                if rng.random() < 0.4:
+                    nt = nt.replace(year=yr - 1, month=rng.choice([10, 11, 12]), day=min(nt.day, 28))
+                else:
+                    nt = nt.replace(year=yr, day=min(nt.day, 28))
             evs.append({"ev": "set", "to": fmt_ts(nt), "boundary": True})
             t = nt
         elif r < 0.35:
